@@ -43,10 +43,10 @@ example : Sem Spec.canHold := canHold_sem
 /-- an input that used to lose rows: `'b' > key` (planned as `key >= 'b'` before the repair) now
     gets RANGE[nil, "b"], and `key <= ''` gets the point read of the empty key -/
 example : optimizeExpr (.binop 0 .gt (.str 0 [98]) (.field 0 .key)) = .range none (some [98]) := by
-  simp [optimizeExpr, isStr, optimizeLtLteExpr, operands]
+  simp [optimizeExpr, infer, Conj.single, isStr, optimizeLtLteExpr, operands]
 
 example : optimizeExpr (.binop 0 .lte (.field 0 .key) (.str 0 [])) = .mget [[]] := by
-  simp [optimizeExpr, isStr, optimizeLtLteExpr, operands]
+  simp [optimizeExpr, infer, Conj.single, isStr, optimizeLtLteExpr, operands]
 
 /-- The invariant every helper relies on holds for every tree: a RANGE has at least one bound,
     and start ≤ end when it has both. -/
